@@ -80,11 +80,29 @@ StoreSpec(reg, e) == {reg, Append(reg, e)}
 \*   a successful upload places the adsorbate after every other entry (an overwrite first drops
 \*   the entries it replaces).
 Without(names, n) == SelectSeq(names, LAMBDA x : x # n)
+InSeq(names, n) == \E i \in DOMAIN names : names[i] = n
+\* what a step may do to the registry (as the sequence of registered names; first-match lookups of the
+\* OTHER adsorbates depend on their relative order only):
+\*   refused, or a pure read of the database (from_db): nothing changes;
+\*   delete: only entries of that adsorbate may go, every other entry stays where it was;
+\*   upload (plain or overwrite): the adsorbate is registered, every other entry stays where it was.
 DbStepSpec(op, n, outcome, pre, post) ==
-   IF outcome = "refused" THEN post = pre
-   ELSE CASE op = "delete" -> post = Without(pre, n)
-          [] op = "to_db" -> post = Append(pre, n)
-          [] op = "to_db_overwrite" -> post = Append(Without(pre, n), n)
+   IF outcome = "refused" \/ op = "from_db" THEN post = pre
+   ELSE CASE op = "delete" -> Without(post, n) = Without(pre, n)     \* (whether a SECOND registration of n, made by an upload
+                                                                     \*  to another file, also goes is left open)
+          [] op \in {"to_db", "to_db_overwrite"} -> Without(post, n) = Without(pre, n) /\ InSeq(post, n)
+\* what a step may do to ONE lookup (results as adsorbate names, NotFound when the lookup is refused):
+\*   nothing, except that a delete un-registers the strings of the deleted adsorbate, an upload may make
+\*   strings of the uploaded adsorbate resolvable that were not before, and an overwrite may move strings
+\*   from/to the replaced adsorbate of that name.  An upload NEVER takes a name or alias away.
+NotFound == "<not found>"
+LookupStepSpec(op, n, outcome, affected, before, after) ==
+   \/ after = before
+   \/ /\ outcome = "ok"
+      /\ CASE op = "delete" -> before = n /\ after = NotFound
+           [] op = "to_db" -> before = NotFound /\ affected /\ after = n
+           [] op = "to_db_overwrite" -> (before = NotFound /\ affected /\ after = n) \/ (before = n /\ ~affected /\ after = NotFound)
+           [] OTHER -> FALSE
 \* adsorbate_delete_db as implemented: the registry is touched only after the DELETE statements went through
 DbDeleteImpl(reg, n, refused) == IF refused THEN reg ELSE SelectSeq(reg, LAMBDA e : e.name # n)
 
